@@ -146,6 +146,7 @@ Qed.
 Definition fixed (var : variant) : Prop := v_persist_first var = true /\ v_set_atomic var = true.
 Lemma fixed_repaired : fixed Repaired.  Proof. split; reflexivity. Qed.
 Lemma fixed_pre_e792c74 : fixed FrrDefect.  Proof. split; reflexivity. Qed.
+Lemma fixed_head : fixed Head.  Proof. split; reflexivity. Qed.
 Lemma set_store_fixed var : v_set_atomic var = true -> forall s h p v, set_store var s h p v = set_store Repaired s h p v.
 Proof. intros H s h p v. unfold set_store. rewrite H. reflexivity. Qed.
 
@@ -243,15 +244,20 @@ Proof. intros H E. apply sort_changes_nil with (l := x :: l) in H; auto. discrim
    the running configuration *)
 Definition daemon_restored (st st' : state) (evs : list ev) : Prop :=
   frr st' = frr st \/ (In EFrrReload evs /\ frr st' = Some (running st)).
+(* ... or the restoring reload failed as well (the daemon is down): then the daemon may still run the candidate,
+   and — in the variants that report it — the returned error says so *)
+Definition daemon_clause (var : variant) (f : faults) (st st' : state) (r : res) (evs : list ev) : Prop :=
+  daemon_restored st st' evs \/
+  (f_restore f = true /\ (v_report_restore var = true -> r = RFrrReloadU \/ r = RStartupSaveU)).
 
 Lemma commit_cases var reg g st id f st' r evs :
   v_persist_first var = true ->
   do_commit var reg g st id f = (st', r, evs) ->
   (r <> ROk /\ (exists d, st' = set_frr (touch_state (expire st) id) d) /\
-   (v_frr_restore var = true \/ f_reload f <> 2%nat -> daemon_restored st st' evs) /\ trace_undone evs) \/
+   (v_frr_restore var = true \/ f_reload f <> 2%nat -> daemon_clause var f st st' r evs) /\ trace_undone evs) \/
   (r = ROk /\ commit_success reg g st id f st' /\ trace_kept evs).
 Proof.
-  intros HP. unfold do_commit, touch_state, daemon_restored.
+  intros HP. unfold do_commit, touch_state, daemon_clause, daemon_restored.
   destruct (find_session (sessions (expire st)) id) as [s0|] eqn:Ef.
   2:{ intros H; inversion H; subst. left. repeat split; try discriminate; auto.
       exists (frr (expire st)). symmetry. apply set_frr_same. }
@@ -280,19 +286,29 @@ Proof.
   all: destruct (need && f_test f);
     [intros H; inversion H; subst; left; repeat split; auto; try discriminate; apply (U [EFrrTest]); auto|].
   all: destruct (need && negb (Nat.eqb (f_reload f) 0)).
-  1,3: destruct (v_frr_restore var) eqn:EV; intros H; inversion H; subst; left; (split; [discriminate|]);
+  1,3: destruct (v_frr_restore var) eqn:EV; [destruct (f_restore f) eqn:ER|];
+       intros H; inversion H; subst; left;
+       (split; [destruct (v_report_restore var); discriminate|]);
        (split; [eexists; reflexivity|]); split;
-       [ intros _; right; split; [apply in_or_app; right; simpl; auto | reflexivity]
-       | apply (U [EFrrTest; EFrrReload; EFrrReload]); auto
-       | intros [C|C]; [discriminate|]; left; simpl; destruct (Nat.eqb_spec (f_reload f) 2); [contradiction|reflexivity]
-       | apply (U [EFrrTest; EFrrReload]); auto ].
+       first [ solve [intros _; right; split; [reflexivity|]; intros HR; rewrite HR; left; reflexivity]
+             | solve [intros _; left; right; split; [apply in_or_app; right; simpl; auto | reflexivity]]
+             | solve [intros [C|C]; [discriminate|]; left; left; simpl;
+                      destruct (Nat.eqb_spec (f_reload f) 2); [contradiction|reflexivity]]
+             | solve [apply (U [EFrrTest; EFrrReload; EFrrReload]); auto]
+             | solve [apply (U [EFrrTest; EFrrReload]); auto] ].
   all: assert (K : trace_kept (if need then evs0 ++ [EFrrTest; EFrrReload] else evs0))
          by (unfold trace_kept; destruct need; auto; rewrite rolled_app, Hro; reflexivity).
   all: rewrite HP; cbn [negb].
   all: destruct (f_startup f);
-    [intros H; inversion H; subst; left; split; [discriminate|]; split; [eexists; reflexivity|]; split;
-      [intros _; destruct need; [right; split; [apply in_or_app; left; apply in_or_app; right; simpl; auto|reflexivity] | left; reflexivity]
-      | destruct need; [rewrite <- !app_assoc; apply (U ([EFrrTest; EFrrReload] ++ [EFrrReload])); auto | apply (U []); auto]]|].
+    [destruct (need && f_restore f) eqn:ENR;
+      [ apply andb_true_iff in ENR as [EN ERs]; subst need; intros H; inversion H; subst; left;
+        (split; [destruct (v_report_restore var); discriminate|]); (split; [eexists; reflexivity|]); split;
+        [ intros _; right; split; [exact ERs|]; intros HR; rewrite HR; right; reflexivity
+        | rewrite <- !app_assoc; apply (U ([EFrrTest; EFrrReload] ++ [EFrrReload])); auto ]
+      | intros H; inversion H; subst; left; split; [discriminate|]; split; [eexists; reflexivity|]; split;
+        [ intros _; left; destruct need; [right; split; [apply in_or_app; left; apply in_or_app; right; simpl; auto|reflexivity] | left; reflexivity]
+        | destruct need; [rewrite <- !app_assoc; apply (U ([EFrrTest; EFrrReload] ++ [EFrrReload])); auto | apply (U []); auto] ] ]
+    |].
   all: destruct (version_changes reg (s_changes (touch s0))) eqn:Ev;
     intros H; inversion H; subst; right; (split; [reflexivity|]); (split; [|exact K]);
     exists s0; simpl; repeat split; auto;
@@ -305,7 +321,7 @@ Qed.
    or one of the two persistence failures *)
 Lemma commit_early_failure var reg g st id f st' r evs :
   do_commit var reg g st id f = (st', r, evs) ->
-  r <> ROk -> r <> RStartupSave -> r <> RVersionSave -> r <> RFrrReload ->
+  r <> ROk -> r <> RStartupSave -> r <> RVersionSave -> r <> RFrrReload -> r <> RFrrReloadU -> r <> RStartupSaveU ->
   st' = touch_state (expire st) id /\ trace_undone evs.
 Proof.
   unfold do_commit, touch_state.
@@ -331,9 +347,9 @@ Proof.
   all: cbv zeta.
   all: destruct (need && f_test f); [intros H; inversion H; subst; split; auto; apply (U [EFrrTest]); auto|].
   all: destruct (need && negb (Nat.eqb (f_reload f) 0));
-    [destruct (v_frr_restore var); intros H; inversion H; subst; congruence|].
+    [destruct (v_frr_restore var); [destruct (f_restore f); [destruct (v_report_restore var)|]|]; intros H; inversion H; subst; congruence|].
   all: destruct (negb (v_persist_first var));
-    (destruct (f_startup f); [intros H; inversion H; subst; congruence|]);
+    (destruct (f_startup f); [try (destruct (need && f_restore f); [destruct (v_report_restore var)|]); intros H; inversion H; subst; congruence|]);
     (destruct (version_changes reg (s_changes (touch s0))); [intros H; inversion H; subst; congruence|]);
     try (destruct (f_version f)); intros H; inversion H; subst; congruence.
 Qed.
@@ -561,7 +577,7 @@ Definition persisted (st : state) := (running st, startup st, sfile st, vfiles s
 Lemma atomic var reg g st id f st' r evs :
   fixed var -> do_commit var reg g st id f = (st', r, evs) -> r <> ROk ->
   (exists d, st' = set_frr (touch_state (expire st) id) d) /\ persisted st' = persisted st /\
-  (v_frr_restore var = true \/ f_reload f <> 2%nat -> daemon_restored st st' evs) /\ trace_undone evs.
+  (v_frr_restore var = true \/ f_reload f <> 2%nat -> daemon_clause var f st st' r evs) /\ trace_undone evs.
 Proof.
   intros HV H Hr. apply (commit_cases _ _ _ _ _ _ _ _ _ (proj1 HV)) in H as [[_ [[d E] [D T]]]|[E _]]; [|contradiction].
   split; [exists d; exact E|]. split; [|auto]. subst. unfold persisted. simpl.
@@ -819,9 +835,32 @@ Proof.
   destruct outcome as [|[|[|k]]]; try (intros H; inversion H; fail).
   all: cbv zeta.
   all: destruct (need && f_test f); [intros H; inversion H|].
-  all: destruct (need && negb (Nat.eqb (f_reload f) 0)); [destruct (v_frr_restore var); intros H; inversion H|].
+  all: destruct (need && negb (Nat.eqb (f_reload f) 0));
+    [destruct (v_frr_restore var); [destruct (f_restore f); [destruct (v_report_restore var)|]|]; intros H; inversion H|].
   all: destruct (negb (v_persist_first var));
-    (destruct (f_startup f); [intros H; inversion H|]);
+    (destruct (f_startup f); [try (destruct (need && f_restore f); [destruct (v_report_restore var)|]); intros H; inversion H|]);
     (destruct (version_changes reg (s_changes (touch s0))); [|try (destruct (f_version f))]);
     intros H; inversion H; subst; exists s0; auto.
+Qed.
+
+(* the start-up path in the variants that make it atomic: a start-up that fails — validation of the loaded
+   configuration, a held lock, the derivation, any failure of its commit — leaves running what it was and
+   writes neither the startup file nor a version *)
+Lemma boot_atomic var reg g st cfg steps em f st' r evs :
+  v_boot_atomic var = true -> do_boot var reg g st cfg steps em f = (st', r, evs) -> is_boot_ok r = false ->
+  running st' = running st /\ running_oid st' = running_oid st.
+Proof.
+  intros HB. unfold do_boot. rewrite HB. cbv zeta. cbn [andb].
+  destruct (negb (precommit_ok g cfg)); [intros H; inversion H; subst; auto|].
+  match goal with |- (let (_, _) := ?X in _) = _ -> _ => destruct X as [[st_z r0] evs0] end.
+  destruct (negb (is_boot_ok r0)) eqn:E; intros H; inversion H; subst; auto.
+  intros C. apply negb_false_iff in E. congruence.
+Qed.
+(* ... and never publishes a configuration that does not pass the pre-commit validation *)
+Lemma boot_validates var reg g st cfg steps em f st' r evs :
+  v_boot_atomic var = true -> do_boot var reg g st cfg steps em f = (st', r, evs) ->
+  precommit_ok g cfg = false -> r = RPrecommit /\ running st' = running st.
+Proof.
+  intros HB. unfold do_boot. rewrite HB. cbv zeta. cbn [andb]. intros H HP. rewrite HP in H.
+  simpl in H. inversion H; subst; auto.
 Qed.
